@@ -147,13 +147,29 @@ func checkC15(c *FileCase) *Violation {
 }
 
 func genC15(t *rapid.T) *FileCase {
+	var c *FileCase
 	if rapid.IntRange(0, 2).Draw(t, "kitchen") == 0 {
-		return genKitchenCase(t, 0, 3)
+		c = genKitchenCase(t, 0, 3)
+	} else {
+		cfg := DefaultFileCfg()
+		cfg.CF.MaxDepth = 3
+		cfg.MaxTops = 7
+		c = genFileCase(t, cfg, 0)
 	}
-	cfg := DefaultFileCfg()
-	cfg.CF.MaxDepth = 3
-	cfg.MaxTops = 7
-	return genFileCase(t, cfg, 0)
+	// names of generated shape that clash with nothing: the documented scopes apply to them like to any other name
+	n := rapid.IntRange(0, 2).Draw(t, "shapednames")
+	for i := 0; i < n; i++ {
+		scope := rapid.SampledFrom([]string{"", "global", "local"}).Draw(t, "shapedscope")
+		switch rapid.IntRange(0, 2).Draw(t, "shapedkind") {
+		case 0:
+			c.File.Tops = append(c.File.Tops, &Top{K: "text", Text: &TextStmt{Name: fmt.Sprintf("Lobby%d_Text_%d", i, rapid.IntRange(0, 9).Draw(t, "shapedn")), Scope: scope, Val: &TextVal{Lit: &StrLit{Parts: []string{"shaped"}}}}})
+		case 1:
+			c.File.Tops = append(c.File.Tops, &Top{K: "movement", Movement: &Movement{Name: fmt.Sprintf("Lobby%d_Movement_%d", i, rapid.IntRange(0, 9).Draw(t, "shapedn")), Scope: scope, Steps: []*Step{{Name: "walk_up"}}}})
+		default:
+			c.File.Tops = append(c.File.Tops, &Top{K: "script", Script: &Script{Name: fmt.Sprintf("Lobby%d_%d", i, rapid.IntRange(1, 9).Draw(t, "shapedn")), Scope: scope, Body: &Block{Stmts: []*Stmt{sCmd(&Cmd{Name: "shaped"})}}}})
+		}
+	}
+	return c
 }
 
 func init() { register("C15", "TestC15_Scopes", checkC15, fileCaseSrc) }
